@@ -150,3 +150,13 @@ mod sync_layer_tests {
         assert_eq!(time_sync.average_frame_advantage(), 2);
     }
 }
+
+#[cfg(feature = "verif-hooks")]
+impl TimeSync {
+    pub(crate) fn verif_digest(&self, out: &mut Vec<u8>) {
+        use crate::verif_hooks::Digest;
+        let Self { local, remote } = self;
+        local.as_slice().digest(out);
+        remote.as_slice().digest(out);
+    }
+}
